@@ -49,7 +49,7 @@ func ruleLK1(c *Ctx) {
 	// rawFn the function it is in, rawEnv binds the wrapper's parameters to the arguments of its call in lp
 	rawOf := map[ssa.CallInstruction]*ssa.Call{}
 	for _, call := range callsIn(lp) {
-		if h := call.Common().StaticCallee(); h != nil && c.InModule(h) {
+		if h := calleeOf(call.Common()); h != nil && c.InModule(h) {
 			if raw := c.F.acquireWrapper(h); raw != nil {
 				acquires = append(acquires, call)
 				rawOf[call] = raw
@@ -234,7 +234,7 @@ func ruleLK1(c *Ctx) {
 			return
 		}
 		// a helper that opens the lock file: every fd it hands back on success comes from syscall.Open(its path parameter)
-		h := call.Call.StaticCallee()
+		h := calleeOf(&call.Call)
 		if h == nil || !c.InModule(h) || h.Blocks == nil || depth > 1 || len(call.Call.Args) == 0 || !pathOK(call.Call.Args[0]) {
 			fdOK, fdWhy = false, "fd is not the result of syscall.Open"
 			return
@@ -320,7 +320,7 @@ func ruleLK1(c *Ctx) {
 				if !region[cc.Block()] {
 					continue
 				}
-				if cal := cc.Common().StaticCallee(); cal != nil && c.InModule(cal) {
+				if cal := calleeOf(cc.Common()); cal != nil && c.InModule(cal) {
 					// creator helper: transitive effects must be non-destructive and must create
 					creates, destroys := false, ""
 					for g := range c.F.TransitiveCallees(cal) {
@@ -393,9 +393,13 @@ func ruleLK2(c *Ctx) {
 		fn := c.Name(ls.Fn)
 		site := fmt.Sprintf("call withLock#%d", ls.Ordinal)
 		pos := c.Pos(ls.Call.Pos())
-		args := ls.Call.Common().Args
+		args := []ssa.Value{ls.PathArg, ls.TypeArg}
+		if ls.PathArg == nil || ls.TypeArg == nil {
+			c.unk(fn, site+"|operands", pos, "lock path / lock type operands not identified")
+			continue
+		}
 		// lock type
-		lt, ok := constInt(args[1])
+		lt, ok := constInt(resolveEnv(args[1], ls.WEnv))
 		c.check(ok && lt == LOCK_EX, fn, site+"|locktype", pos, "lock type is the constant LOCK_EX",
 			fmt.Sprintf("lock type is not LOCK_EX (const=%v value=%d): writers are not mutually excluded", ok, lt))
 		// path and directory per context
@@ -403,6 +407,17 @@ func ruleLK2(c *Ctx) {
 			ctxTag := ""
 			if ci > 0 {
 				ctxTag = fmt.Sprintf("@ctx%d", ci)
+			}
+			if len(ls.WEnv) > 0 {
+				// through a lock wrapper: its parameters are this call's arguments, themselves read in context e
+				ne := env{}
+				for k, v := range e {
+					ne[k] = v
+				}
+				for k, v := range ls.WEnv {
+					ne[k] = resolveEnv(v, e)
+				}
+				e = ne
 			}
 			D, ok := c.joinLockDir(args[0], e)
 			if !ok {
@@ -427,7 +442,7 @@ func ruleLK2(c *Ctx) {
 			var visit func(g *ssa.Function, ge env, d int)
 			visit = func(g *ssa.Function, ge env, d int) {
 				for _, call := range callsIn(g) {
-					cal := call.Common().StaticCallee()
+					cal := calleeOf(call.Common())
 					if cal == nil || !c.InModule(cal) {
 						continue
 					}
@@ -450,7 +465,7 @@ func ruleLK2(c *Ctx) {
 			visit(ls.Callback, e, 0)
 			for _, sc := range secCalls {
 				call, e := sc.call, sc.e
-				cal := call.Common().StaticCallee()
+				cal := calleeOf(call.Common())
 				if !(c.isLoader(cal) || commit[cal]) || len(call.Common().Args) == 0 {
 					continue
 				}
@@ -536,7 +551,7 @@ func (c *Ctx) loadsBeforeCommits(h *ssa.Function, commit map[*ssa.Function]bool,
 	}
 	var loads, commits []ssa.CallInstruction
 	for _, call := range callsIn(h) {
-		cal := call.Common().StaticCallee()
+		cal := calleeOf(call.Common())
 		if cal == nil {
 			continue
 		}
@@ -557,7 +572,7 @@ func (c *Ctx) loadsBeforeCommits(h *ssa.Function, commit map[*ssa.Function]bool,
 				ok = true
 			}
 		}
-		if !ok && !c.loadsBeforeCommits(cm.Common().StaticCallee(), commit, d+1) {
+		if !ok && !c.loadsBeforeCommits(calleeOf(cm.Common()), commit, d+1) {
 			return false
 		}
 	}
@@ -594,7 +609,7 @@ func ruleLK4(c *Ctx) {
 		cb := ls.Callback
 		var loads, commits []ssa.CallInstruction
 		for _, call := range callsIn(cb) {
-			cal := call.Common().StaticCallee()
+			cal := calleeOf(call.Common())
 			if cal == nil {
 				continue
 			}
@@ -613,7 +628,7 @@ func ruleLK4(c *Ctx) {
 			}
 			direct := false
 			for _, cm := range commits {
-				if cm.Common().StaticCallee() == g || c.F.TransitiveCallees(cm.Common().StaticCallee())[g] {
+				if calleeOf(cm.Common()) == g || c.F.TransitiveCallees(calleeOf(cm.Common()))[g] {
 					direct = true
 				}
 			}
@@ -632,11 +647,11 @@ func ruleLK4(c *Ctx) {
 						dominated = true
 					}
 				}
-				if !dominated && c.loadsBeforeCommits(cm.Common().StaticCallee(), commit, 0) {
+				if !dominated && c.loadsBeforeCommits(calleeOf(cm.Common()), commit, 0) {
 					dominated = true // the body of the critical section lives in a helper that reads the log before it commits
 				}
 				if !dominated {
-					bad = fmt.Sprintf("commit %s at %s is not preceded, inside the critical section, by a read of the log", c.Name(cm.Common().StaticCallee()), c.Pos(cm.Pos()))
+					bad = fmt.Sprintf("commit %s at %s is not preceded, inside the critical section, by a read of the log", c.Name(calleeOf(cm.Common())), c.Pos(cm.Pos()))
 				}
 			}
 			if indirect != "" && bad == "" {
@@ -720,7 +735,7 @@ func valueDerivesFromCallTo(v ssa.Value, fn *ssa.Function) bool {
 			return false
 		}
 		seen[x] = true
-		if call, ok := x.(*ssa.Call); ok && call.Call.StaticCallee() == fn {
+		if call, ok := x.(*ssa.Call); ok && calleeOf(&call.Call) == fn {
 			return true
 		}
 		if u, ok := x.(*ssa.UnOp); ok && u.Op == token.MUL {
@@ -842,11 +857,11 @@ func ruleLK5(c *Ctx) {
 					continue
 				}
 				n, what := 0, ""
-				cal := call.Common().StaticCallee()
+				cal := calleeOf(call.Common())
 				switch {
 				case isCommitEffect(call):
 					n, what = 1, calleeFullName(call.Common())
-				case cal != nil && cal == c.F.LockPrim:
+				case cal != nil && c.F.isLockFn(cal):
 					for _, ls := range c.F.LockSites {
 						if ls.Call == call && ls.Callback != nil {
 							n = summ(ls.Callback).max
@@ -1012,7 +1027,7 @@ func ruleLK7(c *Ctx) {
 		bad := ""
 		var path []string
 		for g := range seen {
-			if g == c.F.LockPrim {
+			if c.F.isLockFn(g) {
 				bad = "reaches the lock primitive " + c.Name(g)
 				path = c.PathTo(g, pred)
 			}
@@ -1051,7 +1066,7 @@ func ruleLK8(c *Ctx) {
 		if v, ok := memo[f]; ok {
 			return v
 		}
-		if onStack[f] || f == c.F.LockPrim {
+		if onStack[f] || c.F.isLockFn(f) {
 			return 0
 		}
 		onStack[f] = true
@@ -1065,9 +1080,9 @@ func ruleLK8(c *Ctx) {
 					continue
 				}
 				n := 0
-				cal := call.Common().StaticCallee()
+				cal := calleeOf(call.Common())
 				switch {
-				case cal != nil && cal == c.F.LockPrim:
+				case cal != nil && c.F.isLockFn(cal):
 					n = 1
 					for _, ls := range c.F.LockSites {
 						if ls.Call == call && ls.Callback != nil {
